@@ -1,15 +1,15 @@
 #!/bin/bash
-# Builds everything the checks need from files on disk only (offline).
+# Builds everything the registered checks need from files on disk only (offline).
 set -e
 cd "$(dirname "$0")"
 export GOFLAGS=-mod=mod GOPROXY=off GOSUMDB=off GOTOOLCHAIN=local
 mkdir -p bin evidence replays
-# warm the build cache: every check, with the flags ./check uses
-for d in checks/*/; do
-  id=$(basename "$d")
+# warm the build cache: every registered check, with the flags ./check uses
+for ID in $(jq -r '.checks[].property_id' MANIFEST.json); do
+  id=$(echo "$ID" | tr 'A-Z' 'a-z')
   race="-race"
   case "$id" in c04|c18|c19|c20) race="" ;; esac
-  [ -f "$d/norace" ] && race=""
-  go build $race -tags verif -o /dev/null "./$d" || { echo "setup: build of $id failed"; exit 1; }
+  [ -f "checks/$id/norace" ] && race=""
+  go build $race -tags verif -o /dev/null "./checks/$id" || { echo "setup: build of $id failed"; exit 1; }
 done
 echo "setup ok"
